@@ -152,6 +152,9 @@ struct ImplRun {
     tx_batches: Vec<usize>,
     ks_ids: Vec<u64>,
     content: Vec<u8>,
+    /// length of the journal (without its zero padding) after every batch: the batch boundaries as the
+    /// implementation laid them out (used when the run goes without the model)
+    ends_real: Vec<usize>,
     problems: Vec<String>,
 }
 
@@ -166,6 +169,7 @@ fn run_impl(case: &Case, dir: &Path) -> ImplRun {
     let mut problems = Vec::new();
     let mut batches: Vec<EBatch> = Vec::new();
     let mut tx_sets: Vec<(usize, Vec<PEntry>)> = Vec::new();
+    let mut ends_real: Vec<usize> = Vec::new();
     let ks_ids;
     {
         let db = open_db(dir, case.lz4).expect("open");
@@ -188,6 +192,7 @@ fn run_impl(case: &Case, dir: &Path) -> ImplRun {
                         continue;
                     }
                     batches.push(EBatch { seqno, entries: vec![w_entry(ks_ids[*k], w)] });
+                    ends_real.push(journal_content(&dir.join("0.jnl")).len());
                 }
                 Op::Clear(k) => {
                     if let Err(e) = kss[*k].inner().clear() {
@@ -195,6 +200,7 @@ fn run_impl(case: &Case, dir: &Path) -> ImplRun {
                         continue;
                     }
                     batches.push(EBatch { seqno, entries: vec![PEntry::Clear { ks: ks_ids[*k] }] });
+                    ends_real.push(journal_content(&dir.join("0.jnl")).len());
                 }
                 Op::Batch(ws) => {
                     let mut b = db.inner().batch();
@@ -214,6 +220,7 @@ fn run_impl(case: &Case, dir: &Path) -> ImplRun {
                         seqno,
                         entries: ws.iter().map(|(k, w)| w_entry(ks_ids[*k], w)).collect(),
                     });
+                    ends_real.push(journal_content(&dir.join("0.jnl")).len());
                 }
                 Op::Tx(ws) => {
                     let mut tx = db.write_tx();
@@ -238,6 +245,7 @@ fn run_impl(case: &Case, dir: &Path) -> ImplRun {
                     }
                     tx_sets.push((batches.len(), last.into_values().collect()));
                     batches.push(EBatch { seqno, entries: vec![] });
+                    ends_real.push(journal_content(&dir.join("0.jnl")).len());
                 }
             }
         }
@@ -277,7 +285,7 @@ fn run_impl(case: &Case, dir: &Path) -> ImplRun {
             }
         }
     }
-    ImplRun { batches, tx_batches, ks_ids, content, problems }
+    ImplRun { batches, tx_batches, ks_ids, content, ends_real, problems }
 }
 
 fn batch_spec(b: &EBatch) -> String {
@@ -512,13 +520,15 @@ fn run_case(case: &Case, mode: &str, thorough: bool, lean: &mut Lean, st: &mut S
             }
         }
     }
-    register_lz4(lean, &run, case.lz4, &mut fails, st);
+    let nm = no_model();
+    if !nm { register_lz4(lean, &run, case.lz4, &mut fails, st); }
 
-    // (1) writer layout, bit for bit
+    // (1) writer layout, bit for bit (without the model: the batch boundaries as the implementation laid them out)
     let mut model_bytes: Vec<u8> = Vec::new();
     let mut ends: Vec<usize> = Vec::new();
     let cp = if case.lz4 { "L" } else { "N" };
-    for b in &run.batches {
+    if nm { ends = run.ends_real.clone(); model_bytes = run.content.clone(); }
+    for b in run.batches.iter().filter(|_| !nm) {
         let r = lean.ask(&format!("wenc 4096 {cp} {}", batch_spec(b)));
         match unhex(&r) {
             Some(x) => model_bytes.extend_from_slice(&x),
@@ -549,7 +559,7 @@ fn run_case(case: &Case, mode: &str, thorough: bool, lean: &mut Lean, st: &mut S
     // (2) read back: model reader == real reader == what was written
     let want = show_expected(&run.batches, content.len());
     let real = real_read(&scratch.path, content, 0);
-    let ld = lean.ask(&format!("load {}", hex(content)));
+    let ld = if nm { "ok".to_string() } else { lean.ask(&format!("load {}", hex(content))) };
     if ld != "ok" {
         fails.push(Failure { kind: "harness", detail: format!("driver load failed: {ld}") });
         return fails;
@@ -558,7 +568,7 @@ fn run_case(case: &Case, mode: &str, thorough: bool, lean: &mut Lean, st: &mut S
     if real != want {
         fails.push(Failure { kind: "impl-vs-oracle", detail: format!("clean journal does not read back as written:\n real={}\n want={}", clip(&real), clip(&want)) });
     }
-    if model != real {
+    if !nm && model != real {
         fails.push(Failure { kind: "model-vs-impl", detail: format!("model reader differs from the real reader on the clean journal:\n model={}\n real={}", clip(&model), clip(&real)) });
     }
     if !fails.is_empty() {
@@ -619,7 +629,7 @@ fn run_case(case: &Case, mode: &str, thorough: bool, lean: &mut Lean, st: &mut S
                 }
                 let mpad = pad.min(100);
                 let model = lean.ask(&format!("readcut {n} {mpad}"));
-                if model != real {
+                if !nm && model != real {
                     fails.push(Failure {
                         kind: "model-vs-impl",
                         detail: format!("cut at {n} (+{pad}/{mpad} zero bytes): model reader differs from real reader:\n model={}\n real={}", clip(&model), clip(&real)),
@@ -757,7 +767,7 @@ fn run_case(case: &Case, mode: &str, thorough: bool, lean: &mut Lean, st: &mut S
             altered[p] = v;
             let real = real_read(&scratch.path, &altered, 0);
             let model = lean.ask(&format!("readalt {p} {v}"));
-            if model != real {
+            if !nm && model != real {
                 fails.push(Failure { kind: "model-vs-impl", detail: format!("byte {p} := {v:#04x}: model reader differs from real reader:\n model={}\n real={}", clip(&model), clip(&real)) });
             }
             // oracle: error, or the batches of a prefix with unaltered items
@@ -894,7 +904,7 @@ fn main() {
 
     {
         let mut f = Vec::new();
-        check_xxh3(&mut lean, &mut master.clone(), if thorough { 2000 } else { 400 }, &mut f, &mut st);
+        if !no_model() { check_xxh3(&mut lean, &mut master.clone(), if thorough { 2000 } else { 400 }, &mut f, &mut st); }
         for x in f {
             all_fails.push((0, x));
         }
